@@ -18,6 +18,9 @@ Vocabulary (strict; anything else raises Unsupported):
                                                          let g := { g with fileRoutes := (X.name, X.id) :: g.fileRoutes }
     X.folder = self                                      skipped (back reference, not part of the structure)
     return True / fall off the end                       (g, true) / some g
+    self._helper(X)     (second shift of round 7)        the body of the PRIVATE Folder method `_helper(self, p)` is translated in place
+                                                         (`let g := (let p := X; …; g)`): extracting a helper out of a translated method, or
+                                                         calling it from the restore loop, keeps the translation (and the theorems decide)
 Logging statements and docstrings are dropped first (as in extract/filesystem.py)."""
 import ast
 import json
@@ -78,14 +81,70 @@ def _is_type_guard(test: ast.AST) -> bool:
     return _u(test) in ("file is None or not isinstance(file, File)",)
 
 
-def _stmts(body: List[ast.stmt], opt: set, bool_result: bool, ind: int) -> str:
+_FOLDER_CLS = {"cls": None}      # set by emit(): the class the private helpers are looked up in
+_INLINED: dict = {}              # helper name -> number of call sites translated in place (read by extract/filesystem.py)
+_INLINE_STACK: List[str] = []
+NOT_HELPERS = {"restore_file", "add_file", "remove_file", "get_file", "get_file_by_id", "remove_file_by_id", "remove_file_by_name",
+               "remove_all_files", "delete", "restore"}
+
+
+def _helper_call(c: ast.Call):
+    """`self._h(X)` / `self._h(p=X)` where `_h(self, p)` is a private method of Folder that returns nothing: (FunctionDef, X) or None."""
+    cls = _FOLDER_CLS["cls"]
+    if cls is None or not (isinstance(c.func, ast.Attribute) and _u(c.func.value) == "self"):
+        return None
+    name = c.func.attr
+    if not name.startswith("_") or name.startswith("__") or name in NOT_HELPERS:
+        return None
+    fns = [n for n in cls.body if isinstance(n, ast.FunctionDef) and n.name == name]
+    if len(fns) != 1:
+        return None
+    fn = fns[0]
+    a = fn.args
+    if fn.decorator_list or a.vararg or a.kwarg or a.kwonlyargs or a.defaults or len(a.args) != 2 or a.args[0].arg != "self":
+        return None
+    if any(isinstance(n, ast.Return) and n.value is not None and not (isinstance(n.value, ast.Constant) and n.value.value is None)
+           for n in ast.walk(fn)):
+        return None
+    arg = c.args[0] if (len(c.args) == 1 and not c.keywords) else (
+        c.keywords[0].value if (not c.args and len(c.keywords) == 1 and c.keywords[0].arg == a.args[1].arg) else None)
+    if not isinstance(arg, ast.Name):
+        return None
+    return fn, arg.id
+
+
+def _inline(fn: ast.FunctionDef, x: str, ind: int) -> str:
+    """The body of helper `fn(self, p)` on the folder `g` with p := x, as a Lean term of type Folder (indented block, no parentheses)."""
+    if fn.name in _INLINE_STACK:
+        raise Unsupported("recursive helper " + fn.name)
+    _INLINE_STACK.append(fn.name)
+    try:
+        p = fn.args.args[1].arg
+        pad = "  " * ind
+        head = "" if p == x else pad + f"let {p} := {x}\n"
+        body = head + _stmts(_clean(fn), set(), "unit", ind)
+    finally:
+        _INLINE_STACK.pop()
+    _INLINED[fn.name] = _INLINED.get(fn.name, 0) + 1
+    return body
+
+
+def _stmts(body: List[ast.stmt], opt: set, bool_result, ind: int) -> str:
+    """bool_result: True (answers a bool: Folder × Bool), False (may raise: Option Folder), "unit" (a helper: Folder)."""
     pad = "  " * ind
+    unit = bool_result == "unit"
     if not body:
+        if unit:
+            return pad + "g"
         if bool_result:
             raise Unsupported("bool method falls off the end")
         return pad + "some g"
     st, rest = body[0], body[1:]
     if isinstance(st, ast.Return):
+        if unit:
+            if st.value is None or (isinstance(st.value, ast.Constant) and st.value.value is None):
+                return pad + "g"
+            raise Unsupported("return " + _u(st))
         if not (bool_result and isinstance(st.value, ast.Constant) and isinstance(st.value.value, bool)):
             raise Unsupported("return " + _u(st))
         return pad + f"(g, {'true' if st.value.value else 'false'})"
@@ -118,6 +177,12 @@ def _stmts(body: List[ast.stmt], opt: set, bool_result: bool, ind: int) -> str:
                 raise Unsupported("route " + _u(st))
             x = _u(owner.value)
             return pad + f"let g := {{ g with fileRoutes := ({x}.name, {x}.id) :: g.fileRoutes }}\n" + _stmts(rest, opt, bool_result, ind)
+        h = _helper_call(c)
+        if h is not None:
+            fn, x = h
+            if x in opt:
+                raise Unsupported(f"{fn.name}({x}) on a value that may be None")
+            return pad + "let g := (\n" + _inline(fn, x, ind + 1) + ")\n" + _stmts(rest, opt, bool_result, ind)
         raise Unsupported("call " + _u(st))
     if isinstance(st, ast.If) and not st.orelse:
         inner = [s for s in st.body if not _is_syslog(s)]
@@ -221,11 +286,97 @@ def _rskip(st: ast.stmt) -> bool:
     return False
 
 
-def _restore_loop(st: ast.stmt, over: str) -> bool:
-    """`for <k>, file in <over>.items(): self.restore_file(file_name=file.name)`"""
-    return (isinstance(st, ast.For) and not st.orelse and _u(st.iter) == f"{over}.items()" and isinstance(st.target, ast.Tuple)
-            and len(st.target.elts) == 2 and len(st.body) == 1
-            and _u(st.body[0]) == f"self.restore_file(file_name={_u(st.target.elts[1])}.name)")
+DICT_LEAN = {"self.files": "r.g.files", "self.deleted_files": "r.g.deletedFiles"}
+
+
+def _dict_of(e: ast.AST, copies: dict):
+    """A dictionary of files as (Lean list, is a snapshot taken before the loop): self.files / self.deleted_files (live), `X.copy()` / `dict(X)`
+    (snapshot), a local bound to such a copy immediately before the loop."""
+    u = _u(e)
+    if u in DICT_LEAN:
+        return DICT_LEAN[u], False
+    if isinstance(e, ast.Name) and e.id in copies:
+        return copies[e.id], True
+    if isinstance(e, ast.Call) and not e.keywords:
+        if isinstance(e.func, ast.Attribute) and e.func.attr == "copy" and not e.args:
+            return _dict_of(e.func.value, copies)[0], True
+        if _u(e.func) == "dict" and len(e.args) == 1:
+            return _dict_of(e.args[0], copies)[0], True
+    raise Unsupported("dictionary " + u)
+
+
+def _iter_files(e: ast.AST, copies: dict):
+    """What a `for` runs over, as (Lean list of File in iteration order, snapshot?, "values" | "items"). Semantic, order kept:
+        D.values() | D.items()                     the dictionary's list (live view unless D is a copy)
+        list(V) | tuple(V)                         snapshot of V
+        [*V1, *V2, …]  |  V1 + V2 (both lists)     concatenation, evaluated BEFORE the loop (snapshot)
+        itertools.chain(V1, V2) / chain(V1, V2)    concatenation, lazy: accepted only when every part is a snapshot"""
+    if isinstance(e, ast.Call) and isinstance(e.func, ast.Attribute) and e.func.attr in ("values", "items") and not e.args and not e.keywords:
+        lean, snap = _dict_of(e.func.value, copies)
+        return lean, snap, e.func.attr
+    if isinstance(e, ast.Call) and _u(e.func) in ("list", "tuple") and len(e.args) == 1 and not e.keywords:
+        lean, _, kind = _iter_files(e.args[0], copies)
+        return lean, True, kind
+    parts = None
+    lazy = False
+    if isinstance(e, (ast.List, ast.Tuple)) and e.elts and all(isinstance(x, ast.Starred) for x in e.elts):
+        parts = [x.value for x in e.elts]
+    elif isinstance(e, ast.BinOp) and isinstance(e.op, ast.Add):
+        parts = [e.left, e.right]
+        for q in parts:   # `+` is defined on lists / tuples only, not on dict views
+            if not (isinstance(q, (ast.List, ast.Tuple, ast.BinOp)) or (isinstance(q, ast.Call) and _u(q.func) in ("list", "tuple"))):
+                raise Unsupported("operand of + is not a list: " + _u(q))
+    elif isinstance(e, ast.Call) and _u(e.func) in ("itertools.chain", "chain") and e.args and not e.keywords:
+        parts, lazy = list(e.args), True
+    if parts is None:
+        raise Unsupported("iteration over " + _u(e))
+    sub = [_iter_files(q, copies) for q in parts]
+    kinds = {k for _, _, k in sub}
+    if len(kinds) != 1:
+        raise Unsupported("mixed values()/items() in " + _u(e))
+    if lazy and not all(sn for _, sn, _ in sub):
+        raise Unsupported("lazy chain over a live dictionary view: " + _u(e))
+    lean = sub[0][0] if len(sub) == 1 else "(" + " ++ ".join(l for l, _, _ in sub) + ")"
+    return lean, True, kinds.pop()
+
+
+def _restore_loop(st: ast.stmt, copies: dict, ind: int):
+    """`for <file> in <files of the folder>: self.restore_file(file_name=<file>.name)`  or  `…: self._helper(<file>)` (translated in place)
+    -> Lean `let r := { r with g := LIST.foldl (fun a file => …) r.g }`, or None when `st` is not such a loop."""
+    if not (isinstance(st, ast.For) and not st.orelse and len(st.body) == 1):
+        return None
+    try:
+        lean, snap, kind = _iter_files(st.iter, copies)
+    except Unsupported:
+        if any(_u(n) in DICT_LEAN for n in ast.walk(st.iter)):
+            raise
+        return None
+    if kind == "items":
+        if not (isinstance(st.target, ast.Tuple) and len(st.target.elts) == 2 and all(isinstance(x, ast.Name) for x in st.target.elts)):
+            raise Unsupported("loop target " + _u(st.target))
+        v = st.target.elts[1].id
+    else:
+        if not isinstance(st.target, ast.Name):
+            raise Unsupported("loop target " + _u(st.target))
+        v = st.target.id
+    if not snap and lean != "r.g.files":
+        # the body pops from deleted_files: Python raises `dictionary changed size during iteration`
+        raise Unsupported("loop over a live view of deleted_files whose body restores: " + _u(st.iter))
+    pad = "  " * ind
+    b = st.body[0]
+    if not (isinstance(b, ast.Expr) and isinstance(b.value, ast.Call)):
+        raise Unsupported("loop body " + _u(b)[:80])
+    c = b.value
+    if _u(c.func) == "self.restore_file":
+        arg = _lkw(c, "file_name", 0)
+        if arg is None or _u(arg) != f"{v}.name" or len(c.args) + len(c.keywords) != 1:
+            raise Unsupported("loop body " + _u(b)[:80])
+        return pad + f"let r := {{ r with g := {lean}.foldl (fun (a : Folder) ({v} : File) => (a.restoreFile {v}.name).1) r.g }}\n"
+    h = _helper_call(c)
+    if h is not None and h[1] == v:
+        return (pad + f"let loopBody := (fun (a : Folder) ({v} : File) =>\n{pad}    let g := a\n" + _inline(h[0], v, ind + 2) + ")\n"
+                + pad + f"let r := {{ r with g := {lean}.foldl loopBody r.g }}\n")
+    raise Unsupported("loop body " + _u(b)[:80])
 
 
 def _rstmts(body: List[ast.stmt], item: str, ind: int, unit: bool = False) -> str:
@@ -238,13 +389,19 @@ def _rstmts(body: List[ast.stmt], item: str, ind: int, unit: bool = False) -> st
     st, rest = body[0], body[1:]
     if unit and item == "g":
         # the two loops of _restoring_timestep: over the live files, then over a COPY of the deleted ones taken before the loop
-        if _restore_loop(st, "self.files"):
-            return (pad + "let r := { r with g := r.g.files.foldl (fun (a : Folder) (file : File) => (a.restoreFile file.name).1) r.g }\n"
-                    + _rstmts(rest, item, ind, unit))
-        if (isinstance(st, ast.Assign) and _u(st.value) == "self.deleted_files.copy()" and isinstance(st.targets[0], ast.Name)
-                and rest and _restore_loop(rest[0], st.targets[0].id)):
-            return (pad + "let r := { r with g := r.g.deletedFiles.foldl (fun (a : Folder) (file : File) => (a.restoreFile file.name).1) r.g }\n"
-                    + _rstmts(rest[1:], item, ind, unit))
+        lp = _restore_loop(st, {}, ind)
+        if lp is not None:
+            return lp + _rstmts(rest, item, ind, unit)
+        if isinstance(st, ast.Assign) and len(st.targets) == 1 and isinstance(st.targets[0], ast.Name) and rest and isinstance(rest[0], ast.For):
+            # a snapshot of a dictionary taken immediately before the loop that runs over it
+            try:
+                cp = _dict_of(st.value, {})
+            except Unsupported:
+                cp = None
+            if cp is not None and cp[1]:
+                lp = _restore_loop(rest[0], {st.targets[0].id: cp[0]}, ind)
+                if lp is not None:
+                    return lp + _rstmts(rest[1:], item, ind, unit)
         if isinstance(st, ast.AugAssign) and _u(st.target) == "self.restore_countdown" and isinstance(st.op, ast.Sub) and _u(st.value) == "1":
             return pad + "let r := { r with g := { r.g with restoreCountdown := r.g.restoreCountdown - 1 } }\n" + _rstmts(rest, item, ind, unit)
     if unit and isinstance(st, ast.If):
@@ -1049,11 +1206,56 @@ def _vlookup(e: ast.AST, v: str) -> str:
     raise Unsupported("validator lookup " + _u(e))
 
 
+FILE_ACTION = "_file_action"
+
+
+def file_action_shape(irm: ast.FunctionDef):
+    """The closure `_file_action` read structurally (second shift of round 7: no text pin):
+        X = self.get_file(folder_name=request[i], file_name=request[j])        (or the lookup written inside the return)
+        return X._request_manager(request[k:], context)
+    -> (Lean lookup expression over r0 r1, k). Anything else raises Unsupported."""
+    fns = [n for n in irm.body if isinstance(n, ast.FunctionDef) and n.name == FILE_ACTION]
+    if len(fns) != 1 or [a.arg for a in fns[0].args.args] != ["request", "context"]:
+        raise Unsupported("handler " + FILE_ACTION)
+    body = [st for st in fns[0].body if not _rskip(st)]
+    if not body or not isinstance(body[-1], ast.Return) or len(body) > 2:
+        raise Unsupported(FILE_ACTION + " body")
+    ret = body[-1].value
+    if not (isinstance(ret, ast.Call) and isinstance(ret.func, ast.Attribute) and ret.func.attr == "_request_manager" and not ret.keywords
+            and len(ret.args) == 2 and _u(ret.args[1]) == "context"):
+        raise Unsupported(FILE_ACTION + " dispatch " + _u(ret)[:80])
+    sl = ret.args[0]
+    if not (isinstance(sl, ast.Subscript) and _u(sl.value) == "request" and isinstance(sl.slice, ast.Slice) and sl.slice.upper is None
+            and sl.slice.step is None and isinstance(sl.slice.lower, ast.Constant) and isinstance(sl.slice.lower.value, int)):
+        raise Unsupported(FILE_ACTION + " remaining request " + _u(sl))
+    target = ret.func.value
+    if len(body) == 2:
+        a = body[0]
+        if not (isinstance(a, ast.Assign) and len(a.targets) == 1 and isinstance(a.targets[0], ast.Name) and isinstance(target, ast.Name)
+                and target.id == a.targets[0].id):
+            raise Unsupported(FILE_ACTION + " lookup " + _u(a)[:80])
+        target = a.value
+    if not (isinstance(target, ast.Call) and _u(target.func) == "self.get_file"):
+        raise Unsupported(FILE_ACTION + " lookup " + _u(target)[:80])
+    kw = {k.arg: k.value for k in target.keywords}
+    fo_arg = kw.get("folder_name", target.args[0] if target.args else None)
+    fi_arg = kw.get("file_name", target.args[1] if len(target.args) > 1 else None)
+    if fo_arg is None or fi_arg is None or set(kw) - {"folder_name", "file_name"} or len(target.args) + len(kw) != 2:
+        raise Unsupported(FILE_ACTION + " lookup arguments " + _u(target))
+    return f"fsGetFile s {_req(fo_arg)} {_req(fi_arg)} false", sl.slice.lower.value
+
+
 def _handler_methods() -> List[str]:
     from harness.extract.filesystem import FS
     rels = {"FS": FS, "FOLDER": FOLDER}
     irm = find_method(class_def(parse(FS), "FileSystem"), "_init_request_manager")
     L: List[str] = []
+    look, consumed = file_action_shape(irm)
+    L += ["/-- the closure `_file_action`: the file whose OWN request manager answers the rest of the request (`none`: Python raises, the",
+          "route's `_file_exists` validator excludes it) — the lookup is the TRANSLATED `get_file` on the request's options -/",
+          "def hFileActionTarget (s : State) (r0 r1 : Name) : Option File :=", "  " + look, "",
+          "/-- … and how many leading options it consumes before it hands `request[k:]` to that manager -/",
+          f"def hFileActionConsumed : Nat := {consumed}", ""]
     for py, nm, binders in HANDLERS:
         fns = [n for n in irm.body if isinstance(n, ast.FunctionDef) and n.name == py]
         if len(fns) != 1 or [a.arg for a in fns[0].args.args] != ["request", "context"]:
@@ -1235,8 +1437,19 @@ TRANSLATED = (["Folder.restore_file", "Folder.add_file"] + [f"File.{m}" for m, _
                  "FileSystem.scan", "FileSystem.reveal_to_red"])
 
 
+def inlined_helpers() -> dict:
+    """Helper name -> number of call sites expanded in place by the last translation (runs the translation; {} when it is refused)."""
+    try:
+        emit()
+    except Exception:
+        return {}
+    return dict(_INLINED)
+
+
 def emit() -> str:
     fo = class_def(parse(FOLDER), "Folder")
+    _FOLDER_CLS["cls"] = fo
+    _INLINED.clear()
     rf = find_method(fo, "restore_file")
     af = find_method(fo, "add_file")
     if [a.arg for a in rf.args.args] != ["self", "file_name"] or [a.arg for a in af.args.args] != ["self", "file", "force"]:
